@@ -3,7 +3,8 @@
 (* Lock-step / trace validation for C19.  One record per call:             *)
 (*  kind "energy": dt, a[], tts[], nodal, ru[], rd[] (one per travel time),*)
 (*        trim, start, out[][] (one row per travel time), cum[][] (rows of *)
-(*        calc_cum_abs_surface_energy for the same call)                   *)
+(*        calc_cum_abs_surface_energy for the same call), optionally       *)
+(*        mot[][] (rows of get_time_shift_motions for the same call)       *)
 (*  kind "rel":    law, x[], y[], f    (y = f * x  element-wise)           *)
 (*  kind "put2d":  v[], shifts[], clip, out[][]                            *)
 (*  kind "join":   v[], shifts[], sub, out[][]                             *)
@@ -38,9 +39,16 @@ EnergyRowCheck(k) ==
       cumRef == CumAbs(y)
       cumOK == /\ \A j \in 1..Len(c) : Close(c[j], cumRef[j], FMul(FStr("1e-10"), FAdd(cumRef[Len(c)], FStr("1e-300"))))
                /\ \A j \in 1..(Len(c) - 1) : FLe(c[j], c[j + 1])
+      \* get_time_shift_motions for the same call: the acceleration series itself (before integration)
+      hasMot == "mot" \in DOMAIN R
+      accRef == AccRow(R.a, R.dt, R.tts, k, R.nodal, R.ru[k], R.rd[k])
+      atol == FMul(FStr("1e-12"), FAdd(FMaxAbs(accRef), FStr("1e-300")))
+      motLen == hasMot => (Len(R.mot) = Len(R.tts) /\ Len(R.mot[k]) = Len(y))
+      motOK == hasMot => IF ~R.start THEN \A j \in 1..Len(R.mot[k]) : Close(R.mot[k][j], accRef[j], atol)
+                         ELSE \E s \in (-Len(accRef))..Len(accRef) : IsShiftOf(R.mot[k], accRef, s, atol)
       zeroOK == (R.nodal /\ FEq(R.tts[k], Zero) /\ FEq(R.ru[k], R.rd[k])) => \A j \in 1..Len(y) : FEq(y[j], Zero)
-  IN IF ~lenOK THEN {"Lengths"}
-     ELSE Fails(valOK, IF R.start THEN "StartIsShift" ELSE "EnergyDef")
+  IN IF ~lenOK \/ ~motLen THEN {"Lengths"}
+     ELSE Fails(motOK, "ShiftedWaveDefinition") \cup Fails(valOK, IF R.start THEN "StartIsShift" ELSE "EnergyDef")
           \cup Fails(cumOK, "CumAbsMonotone") \cup Fails(zeroOK, "ZeroTravelNodalZero")
 
 RowsNear(out, ref) ==
